@@ -394,11 +394,12 @@ impl<'a, W: 'static, R: 'static, T: 'static> RuntimeScope<'a, W, R, T> {
         match func {
             XFunction::Native(nc) => nc(args, self, tail_available, rt),
             XFunction::UserFunction { .. } => {
-                let args = args
-                    .iter()
-                    .map(|e| self.eval(e, rt.clone(), false).map(|r| r.unwrap_value()))
-                    .collect::<Result<Vec<_>, _>>()?;
-                self.eval_func_with_values(func, args, rt, tail_available)
+                // user functions are not short-circuiting: an erroring argument is the result
+                let mut evaluated = Vec::with_capacity(args.len());
+                for e in args {
+                    evaluated.push(Ok(xraise!(self.eval(e, rt.clone(), false)?.unwrap_value())));
+                }
+                self.eval_func_with_values(func, evaluated, rt, tail_available)
             }
         }
     }
